@@ -131,21 +131,49 @@ def half(j):
     return gens.cs_angle(j) / 2
 
 
-def build_leaf(spec):
-    """-> (perceval component, lean json)"""
-    import perceval as pcvl
-    from perceval.components import WP, HWP, QWP, PR, PBS, Unitary
+VAR_KINDS = ("WP", "HWP", "QWP", "PR", "PS")
+
+
+def var_values(spec):
+    """{parameter suffix: value} of a variable leaf (angles the user would pass to set_value)"""
     t = spec["t"]
     if t == "WP":
+        return {"d": gens.cs_angle(spec["d"]), "x": half(spec["x2"])}
+    if t in ("HWP", "QWP"):
+        return {"x": half(spec["x2"])}
+    if t == "PR":
+        return {"d": gens.cs_angle(spec["d"])}
+    if t == "PS":
+        return {"p": gens.cs_angle(spec["phi"])}
+    raise ValueError(t)
+
+
+def build_leaf(spec, reg=None):
+    """-> (perceval component, lean json).  With a registry `reg` (long-lived objects of a session) a leaf marked
+    `var` is built on named `Parameter`s whose values are set afterwards (and may be re-set later)."""
+    import perceval as pcvl
+    from perceval.components import WP, HWP, QWP, PR, PBS, PS, Unitary
+    t = spec["t"]
+    par = None
+    if reg is not None and spec.get("var") and t in VAR_KINDS:
+        tag = "v%d" % len(reg)
+        par = {k: pcvl.P(k + tag) for k in var_values(spec)}
+        for k, v in var_values(spec).items():
+            par[k].set_value(v)
+        reg[tag] = par
+        spec["tag"] = tag
+    if t == "WP":
         delta, xsi = gens.cs_angle(spec["d"]), half(spec["x2"])
-        return WP(delta, xsi), {"wp": [spec["d"][0], spec["d"][1], spec["x2"][0], spec["x2"][1]]}
+        obj = WP(par["d"], par["x"]) if par else WP(delta, xsi)
+        return obj, {"wp": [spec["d"][0], spec["d"][1], spec["x2"][0], spec["x2"][1]]}
     if t in ("HWP", "QWP"):
         import sympy as sp
         d = float(sp.pi / 2) if t == "HWP" else float(sp.pi / 4)
-        obj = HWP(half(spec["x2"])) if t == "HWP" else QWP(half(spec["x2"]))
+        x = par["x"] if par else half(spec["x2"])
+        obj = HWP(x) if t == "HWP" else QWP(x)
         return obj, {"wp": [core.rat(math.cos(d)), core.rat(math.sin(d)), spec["x2"][0], spec["x2"][1]]}
     if t == "PR":
-        return PR(gens.cs_angle(spec["d"])), {"pr": [spec["d"][0], spec["d"][1]]}
+        return PR(par["d"] if par else gens.cs_angle(spec["d"])), {"pr": [spec["d"][0], spec["d"][1]]}
     if t == "PBS":
         return PBS(), {"pbs": True}
     if t == "PU":
@@ -154,19 +182,22 @@ def build_leaf(spec):
     if t == "PUH":
         u = gens.haar(2 * spec["k"], spec["seed"])
         return Unitary(pcvl.Matrix(u), use_polarization=True), {"pol": spec["k"], "U": core.mat(u.tolist())}
+    if t == "PS" and par:
+        obj = PS(par["p"])
+        return obj, {"plain": 1, "U": gens.leaf_matrix_json(gens.build_leaf(spec))}
     obj = gens.build_leaf(spec)
     return obj, {"plain": obj.m, "U": gens.leaf_matrix_json(obj)}
 
 
-def build(tree):
+def build(tree, reg=None):
     """-> (perceval circuit/component, lean tree json).  Raises what the real API raises."""
     import perceval as pcvl
     if "leaf" in tree:
-        return build_leaf(tree["leaf"])
+        return build_leaf(tree["leaf"], reg)
     c = pcvl.Circuit(tree["circ"])
     items = []
     for op in tree["ops"]:
-        sub, lsub = build(op["c"])
+        sub, lsub = build(op["c"], reg)
         if op["merge"] is None:
             c.add(op["off"], sub)
         else:
@@ -419,14 +450,20 @@ def exc(e):
 def observe_unitary(case):
     try:
         c, lj = build(case["tree"])
-    except (AssertionError, ValueError, RuntimeError, TypeError, IndexError) as e:
+    except Exception as e:
         return {"build_err": exc(e)}
     out = {"lean": lj}
+    for f in case.get("pre", []):
+        # the same circuit object was already asked for its matrix (other flags); replies are not cached
+        try:
+            c.compute_unitary() if f is None else c.compute_unitary(use_polarization=f)
+        except Exception:
+            pass
     try:
         flag = case["flag"]
         u = c.compute_unitary() if flag is None else c.compute_unitary(use_polarization=flag)
         out["U"] = np.array(u, dtype=complex)
-    except (AssertionError, ValueError, RuntimeError, TypeError, IndexError) as e:
+    except Exception as e:
         out.update(exc(e))
     return out
 
@@ -442,7 +479,7 @@ def observe_probs(case):
     try:
         sp_in, prep = convert_polarized_state(bs)
         out["conv"] = {"input": list(sp_in), "prep": None if prep is None else np.array(prep, dtype=complex)}
-    except (AssertionError, ValueError, RuntimeError, TypeError) as e:
+    except Exception as e:
         out["conv"] = exc(e)
     path = case["path"]
     try:
@@ -458,7 +495,7 @@ def observe_probs(case):
             out["layer"] = type(sim).__name__
             dist = sim.probs(bs)
         out["dist"] = {tuple(k): float(v) for k, v in dist.items()}
-    except (AssertionError, ValueError, RuntimeError, TypeError, IndexError, NotImplementedError) as e:
+    except Exception as e:
         out.update(exc(e))
     return out
 
@@ -741,6 +778,8 @@ def count_case(chk, case):
     nontrivial = any(k in POL_KINDS for k in kinds) and any(k in ("BS", "U", "UH", "PERM") for k in kinds)
     if case["kind"] == "unitary":
         chk.branch({None: "flag-none", True: "flag-true", False: "flag-false"}[case["flag"]])
+        if case.get("pre"):
+            chk.branch("unitary-recomputed")
         return ("U", case["flag"], tree_sig(tree)), nontrivial
     chk.branch({"processor": "processor"}.get(case["path"], "factory-" + case["backend"].lower()))
     n = 0
@@ -773,6 +812,422 @@ def report(chk, case, res):
     if small["kind"] == "probs":
         rp["state"] = state_text(small["modes"])
     chk.fail(kind, sig, what, rp)
+
+
+# ------------------------------------------------------------------------------------------------
+# sessions: ONE long-lived object (a simulator of SimulatorFactory.build, or a Processor) serving a
+# history of requests — queries with different inputs, the circuit replaced / extended / re-tuned in
+# between.  The property is per (circuit, input): every reply must be the stateless one.
+# ------------------------------------------------------------------------------------------------
+QUERY_OPS = ("probs", "svd", "evolve")
+H_POL = {"k": "label", "l": "H"}
+
+
+def leaf_paths(tree, pre=()):
+    """paths (op indices) of the leaves of a circuit tree"""
+    if "leaf" in tree:
+        yield pre, tree["leaf"]
+        return
+    for i, op in enumerate(tree["ops"]):
+        yield from leaf_paths(op["c"], pre + (i,))
+
+
+def node_at(tree, path):
+    for i in path:
+        tree = tree["ops"][i]["c"]
+    return tree
+
+
+def mark_vars(rng, tree, p=0.3):
+    for _, leaf in leaf_paths(tree):
+        if leaf["t"] in VAR_KINDS and rng.random() < p:
+            leaf["var"] = True
+    return tree
+
+
+def regen_leaf(rng, leaf):
+    """same component, new angles"""
+    new = dict(leaf)
+    for k in ("d", "x2", "phi"):
+        if k in new:
+            new[k] = gens.gen_cs(rng)
+    return new
+
+
+def annotated(modes):
+    return any(md["kind"] in ("one", "two", "nonorth", "three") for md in modes)
+
+
+def for_processor(modes):
+    """with_polarized_input needs an annotated photon: write one unannotated mode as {P:H} (same state)"""
+    if annotated(modes):
+        return modes
+    out = copy.deepcopy(modes)
+    for k, md in enumerate(out):
+        if md["kind"] == "plain":
+            out[k] = {"kind": "one", "v": dict(H_POL), "n": md["n"]}
+            return out
+    return [{"kind": "one", "v": dict(H_POL), "n": 1}] + out[1:]
+
+
+def all_h_version(rng, modes, allow_plain):
+    """the same occupation, every photon horizontal (written {P:H} or left unannotated)"""
+    out = []
+    for md in modes:
+        n = mode_count(md)
+        if n == 0:
+            out.append({"kind": "vac"})
+        elif allow_plain and n <= 2 and rng.random() < 0.3:
+            out.append({"kind": "plain", "n": n})
+        else:
+            out.append({"kind": "one", "v": dict(H_POL), "n": n})
+    return out
+
+
+def gen_session(chk, rng, max_m, max_depth, max_ops, nmax, max_steps):
+    m = rng.choice(list(range(2, max_m + 1)) * 3 + [1])
+    tree = mark_vars(rng, force_polarised(rng, gen_tree(rng, m, rng.randint(0, max_depth), rng.randint(1, max_ops))))
+    path = rng.choice(["factory", "factory", "factory", "processor", "processor"])
+    proc = path == "processor"
+    steps = []
+    prev = None             # the previous query's modes (same circuit size)
+    cur = copy.deepcopy(tree)
+    nq = rng.randint(2, max_steps)
+    while sum(st["op"] in QUERY_OPS for st in steps) < nq:
+        r = rng.random()
+        if steps and r < 0.22:
+            # the circuit in force changes between two queries
+            kinds = ["add", "add"]
+            if not proc:
+                kinds += ["set", "set"]
+            vars_ = [(pth, lf) for pth, lf in leaf_paths(cur) if lf.get("var")]
+            if vars_:
+                kinds += ["retune"] * 3
+            k = rng.choice(kinds)
+            if k == "set":
+                m2 = m if rng.random() < 0.75 else rng.choice(list(range(1, max_m + 1)))
+                new = mark_vars(rng, force_polarised(rng, gen_tree(rng, m2, rng.randint(0, max_depth),
+                                                                   rng.randint(1, max_ops))))
+                steps.append({"op": "set", "tree": new})
+                cur = copy.deepcopy(new)
+                if m2 != m:
+                    m, prev = m2, None
+            elif k == "add":
+                leaf = gen_leaf(rng, m, 0.5)
+                op = {"off": rng.randint(0, m - leaf_width(leaf)), "c": {"leaf": leaf}, "merge": None}
+                steps.append({"op": "add", "item": op})
+                cur["ops"].append(copy.deepcopy(op))
+            else:
+                pth, lf = rng.choice(vars_)
+                new = regen_leaf(rng, lf)
+                steps.append({"op": "retune", "path": list(pth), "leaf": new})
+                node_at(cur, pth)["leaf"] = copy.deepcopy(new)
+            continue
+        r = rng.random()
+        if prev is not None and r < 0.30:
+            modes = all_h_version(rng, prev, allow_plain=not proc)
+        elif prev is not None and r < 0.40:
+            modes = copy.deepcopy(prev)
+        elif not proc and r < 0.44:
+            modes = gen_input(rng, m, nmax, vacuum=True)
+        elif r < 0.51:
+            modes = gen_input(rng, m, nmax, malformed=True)
+        else:
+            modes = gen_input(rng, m, nmax)
+        if proc:
+            modes = for_processor(modes)
+            op = "probs"
+        else:
+            op = rng.choice(["probs", "probs", "probs", "svd", "evolve"])
+        steps.append({"op": op, "modes": modes})
+        prev = modes
+    return {"kind": "session", "path": path, "backend": rng.choice(["SLOS", "Naive"]), "tree": tree, "steps": steps}
+
+
+def session_trees(case):
+    """the circuit in force (spec tree) before each step, and after the last"""
+    cur = copy.deepcopy(case["tree"])
+    out = []
+    for st in case["steps"]:
+        out.append(copy.deepcopy(cur))
+        if st["op"] == "set":
+            cur = copy.deepcopy(st["tree"])
+        elif st["op"] == "add":
+            cur["ops"].append(copy.deepcopy(st["item"]))
+        elif st["op"] == "retune":
+            node_at(cur, st["path"])["leaf"] = copy.deepcopy(st["leaf"])
+    out.append(cur)
+    return out
+
+
+def observe_query(obj, kind, op, bs):
+    """one query on the long-lived object -> observation in the format of observe_probs"""
+    import perceval as pcvl
+    from perceval.utils import convert_polarized_state
+    out = {"angles": read_back(bs), "counts": list(bs)}
+    try:
+        sp_in, prep = convert_polarized_state(bs)
+        out["conv"] = {"input": list(sp_in), "prep": None if prep is None else np.array(prep, dtype=complex)}
+    except Exception as e:
+        out["conv"] = exc(e)
+    try:
+        if kind == "processor":
+            obj.with_polarized_input(bs)
+            obj.min_detected_photons_filter(0)
+            res = obj.probs()
+            dist = {tuple(k): float(v) for k, v in res["results"].items()}
+            out["perf"] = (float(res["physical_perf"]), float(res["logical_perf"]))
+        elif op == "svd":
+            res = obj.probs_svd(pcvl.SVDistribution(bs))
+            dist = {tuple(k): float(v) for k, v in res["results"].items()}
+            out["perf"] = (float(res["physical_perf"]), float(res["logical_perf"]))
+        elif op == "evolve":
+            dist = {}
+            for st, amp in obj.evolve(bs):
+                key = tuple(st)
+                dist[key] = dist.get(key, 0.0) + abs(complex(amp)) ** 2
+        else:
+            dist = {tuple(k): float(v) for k, v in obj.probs(bs).items()}
+        out["dist"] = dist
+    except Exception as e:
+        out.update(exc(e))
+    return out
+
+
+def observe_session(case):
+    """-> list of per-step observations (None for a step that is not a query, {'set_err':…} if it raised)"""
+    import perceval as pcvl
+    from perceval.utils import BasicState
+    from perceval.simulators import SimulatorFactory
+    trees = session_trees(case)
+    ljs = [build(t)[1] for t in trees]          # model side: fresh objects of the spec in force at each step
+    reg = {}
+    work = copy.deepcopy(case["tree"])          # carries the parameter tags of the long-lived objects
+    c, _ = build(work, reg)
+    proc = case["path"] == "processor"
+    obj = pcvl.Processor(case["backend"], c) if proc else SimulatorFactory.build(c, case["backend"])
+    out = []
+    for k, st in enumerate(case["steps"]):
+        op = st["op"]
+        if op in QUERY_OPS:
+            o = observe_query(obj, case["path"], op, BasicState(state_text(st["modes"])))
+            o["lean"] = ljs[k]
+            out.append(o)
+            continue
+        try:
+            if op == "set":
+                work = copy.deepcopy(st["tree"])
+                reg = {}
+                c, _ = build(work, reg)
+                obj.set_circuit(c)
+            elif op == "add":
+                item = copy.deepcopy(st["item"])
+                sub, _ = build(item["c"], reg)
+                work["ops"].append(item)
+                if proc:
+                    obj.add(item["off"], sub)
+                else:
+                    c.add(item["off"], sub)
+                    obj.set_circuit(c)
+            else:
+                leaf = node_at(work, st["path"])["leaf"]
+                vals = var_values(st["leaf"])
+                params = obj.get_circuit_parameters() if proc else {p.name: p for p in c.get_parameters()}
+                for key, v in vals.items():
+                    params[key + leaf["tag"]].set_value(v)
+                tag = leaf["tag"]
+                leaf.clear()
+                leaf.update(copy.deepcopy(st["leaf"]))
+                leaf["tag"] = tag
+                if not proc:
+                    obj.set_circuit(c)           # the documented way to make a simulator see new parameter values
+            out.append(None)
+        except Exception as e:
+            out.append({"set_err": exc(e)})
+    return out, ljs
+
+
+def session_req(case, obs, ljs):
+    steps = [{"set": ljs[0]}]
+    for k, st in enumerate(case["steps"]):
+        if st["op"] in QUERY_OPS:
+            steps.append({"q": lean_modes(obs[k]["angles"])})
+        else:
+            steps.append({"set": ljs[k + 1]})
+    return {"op": "session", "fixed": True, "steps": steps}
+
+
+def step_case(case, trees, k):
+    st = case["steps"][k]
+    path = case["path"] if st["op"] == "probs" else case["path"] + "." + st["op"]
+    return {"kind": "probs", "tree": trees[k], "modes": st["modes"], "path": path, "backend": case["backend"]}
+
+
+def is_identity(a):
+    return isinstance(a, np.ndarray) and a.shape[0] == a.shape[1] and np.allclose(a, np.eye(a.shape[0]), atol=1e-12)
+
+
+def judge_session(chk, case, obs=None, rep=None, count=False):
+    """-> None or (kind, signature, what, replay, failing step)"""
+    if obs is None:
+        obs, ljs = observe_session(case)
+        rep = chk.lean.ask(session_req(case, obs, ljs))
+    if "err" in rep:
+        return ("broken", "session-model-rejects", f"the model driver rejected the session: {rep['err']}",
+                {"case": case}, 0)
+    outs = rep["outs"][1:]
+    trees = session_trees(case)
+    prev = None            # (prep identity?, input signature, photons, rejected?) of the previous query
+    changed = False        # circuit changed since the previous query
+    for k, st in enumerate(case["steps"]):
+        o, r = obs[k], outs[k]
+        if st["op"] not in QUERY_OPS:
+            changed = True
+            if o is not None:
+                e = o["set_err"]
+                return ("violation", "circuit-change-raises",
+                        f"step {k + 1} ({st['op']}) of a session on one {case['path']} object raised {e['err']} "
+                        f"({e['msg']}) for an admissible circuit", {"case": case}, k)
+            if r is not None:
+                return ("broken", "session-model-rejects", f"model rejects the circuit of step {k + 1}: {r}",
+                        {"case": case}, k)
+            continue
+        if r is None:
+            return ("broken", "session-model-rejects", f"model gave no reply to the query of step {k + 1}",
+                    {"case": case}, k)
+        pc = step_case(case, trees, k)
+        if count:
+            conv = o["conv"]
+            ident = is_identity(conv.get("prep")) if isinstance(conv, dict) else False
+            rejected = "err" in r
+            n = sum(o["counts"])
+            key = json.dumps(o["angles"])
+            if prev is not None:
+                if not changed:
+                    if ident and not rejected and prev[0] is False and not prev[3] and n > 0:
+                        chk.branch("session-h-after-prepared")
+                    if ident is False and prev[0] is False and key != prev[1] and not rejected and not prev[3]:
+                        chk.branch("session-preparation-changes")
+                    if key == prev[1] and not rejected:
+                        chk.branch("session-same-input-again")
+                else:
+                    chk.branch("session-circuit-changed")
+                    if key == prev[1] and not rejected:
+                        chk.branch("session-same-input-new-circuit")
+                if n != prev[2]:
+                    chk.branch("session-photon-number-changes")
+                if prev[3] and not rejected:
+                    chk.branch("session-after-rejected-input")
+            chk.branch("session-" + ("processor" if case["path"] == "processor" else "factory-" + st["op"]))
+            chk.count("session_query", st["op"])
+            prev = (ident if not rejected else None, key, n, rejected)
+            changed = False
+        res = judge_probs(chk, pc, o, r)
+        if res is None:
+            continue
+        kind, sig, what, _ = res
+        # is it the history?  the same (circuit, input) on a fresh object
+        try:
+            fresh = judge(chk, dict(pc, path=case["path"]))
+        except Exception:
+            fresh = res
+        if fresh is None:
+            sig = "answer-depends-on-history"
+            what = (f"query {k + 1} of a session on ONE {case['path']} object "
+                    f"({', '.join(s['op'] for s in case['steps'][:k + 1])}): {what}; a fresh object gives the right "
+                    f"answer for the same circuit and input {state_text(st['modes'])}")
+        return (kind, sig, what, {"case": case, "failing_step": k + 1}, k)
+    return None
+
+
+def shrink_session(chk, case, sig, k):
+    def fails(c):
+        try:
+            r = judge_session(chk, c)
+        except Exception:
+            return None
+        return r if r is not None and r[1] == sig else None
+
+    cur = copy.deepcopy(case)
+    cur["steps"] = cur["steps"][:k + 1]
+    if fails(cur) is None:
+        return case
+    budget = 40
+    changed = True
+    while changed and budget > 0:
+        changed = False
+        for i in range(len(cur["steps"]) - 1):
+            cand = copy.deepcopy(cur)
+            st = cand["steps"].pop(i)
+            if st["op"] in ("add", "retune") and any(s["op"] == "retune" for s in cand["steps"][i:]):
+                continue                      # paths of later re-tunings refer to this history
+            budget -= 1
+            if fails(cand) is not None:
+                cur, changed = cand, True
+                break
+        if not changed:
+            # remove components of the initial circuit that no later step refers to
+            if any(s["op"] == "retune" for s in cur["steps"]):
+                break
+            for i in range(len(cur["tree"]["ops"])):
+                if budget <= 0:
+                    break
+                cand = copy.deepcopy(cur)
+                del cand["tree"]["ops"][i]
+                if not requires(cand["tree"]):
+                    continue
+                budget -= 1
+                if fails(cand) is not None:
+                    cur, changed = cand, True
+                    break
+    return cur
+
+
+def count_session(chk, case):
+    tree = case["tree"]
+    kinds = set()
+    for leaf, _ in walk_leaves(tree):
+        kinds.add(leaf["t"])
+    for st in case["steps"]:
+        if st["op"] in ("set", "add", "retune"):
+            chk.branch("session-" + st["op"])
+    chk.count("kind", "session")
+    chk.count("session_steps", len(case["steps"]))
+    nontrivial = any(k in POL_KINDS for k in kinds) and any(k in ("BS", "U", "UH", "PERM") for k in kinds)
+    sig = ("S", case["path"], case["backend"], tree_sig(tree),
+           tuple((st["op"], input_sig(st["modes"]) if "modes" in st else None) for st in case["steps"]))
+    return sig, nontrivial
+
+
+def handle_sessions(chk, cases):
+    obs_list, reqs = [], []
+    for case in cases:
+        obs, ljs = observe_session(case)
+        obs_list.append(obs)
+        reqs.append(session_req(case, obs, ljs))
+    reps = chk.lean.ask_many(reqs)
+    for case, obs, rep in zip(cases, obs_list, reps):
+        sig, nontrivial = count_session(chk, case)
+        chk.case(sig, nontrivial=nontrivial,
+                 sample={"kind": "session", "path": case["path"] + ":" + case["backend"], "m": case["tree"]["circ"],
+                         "steps": [st["op"] + (":" + state_text(st["modes"]) if "modes" in st else "")
+                                   for st in case["steps"]][:8]})
+        res = judge_session(chk, case, obs, rep, count=True)
+        if res is None:
+            continue
+        kind, sig, what, replay, k = res
+        small = case
+        if not case.get("corpus"):
+            try:
+                small = shrink_session(chk, case, sig, k)
+                again = judge_session(chk, small) if small is not case else None
+                if again is not None and again[1] == sig:
+                    what = again[2]
+            except Exception:
+                small = case
+        chk.fail(kind, sig, what, {"case": small,
+                                   "steps": [st["op"] + (":" + state_text(st["modes"]) if "modes" in st else "")
+                                             for st in small["steps"]]})
 
 
 # ------------------------------------------------------------------------------------------------
@@ -839,7 +1294,10 @@ def gen_case(chk, rng, max_m, max_depth, max_ops, nmax):
                 if rng.random() < 0.7:
                     force_polarised(rng, tree)
         flag = rng.choice([None, None, True, True, True, False])
-        return {"kind": "unitary", "tree": tree, "flag": flag}
+        case = {"kind": "unitary", "tree": tree, "flag": flag}
+        if rng.random() < 0.2:
+            case["pre"] = [rng.choice([None, True, False]) for _ in range(rng.randint(1, 2))]
+        return case
     m = pick_m(rng, max_m)
     if rng.random() < 0.06:
         tree = {"leaf": gen_pol_leaf(rng, 2)}
@@ -913,7 +1371,12 @@ def run(chk: core.Check):
         "nested-pol-subcircuit", "merged", "nested", "flag-none", "flag-true", "flag-false", "flag-false-rejected",
         "elliptical", "label", "two-orthogonal", "single", "repeated-photon", "unannotated", "vacuum",
         "non-orthogonal-rejected", "three-vectors-rejected", "factory-slos", "factory-naive", "processor",
-        "empty-circuit", "label-table"]
+        "empty-circuit", "label-table", "unitary-recomputed",
+        # one long-lived object serving a history of requests
+        "session-h-after-prepared", "session-preparation-changes", "session-same-input-again",
+        "session-circuit-changed", "session-same-input-new-circuit", "session-photon-number-changes",
+        "session-after-rejected-input", "session-set", "session-add", "session-retune",
+        "session-factory-probs", "session-factory-svd", "session-factory-evolve", "session-processor"]
     chk.lean = core.LeanDriver("C13")
     check_labels(chk)
     rng = chk.rng
@@ -924,10 +1387,15 @@ def run(chk: core.Check):
     nmax = 3
     corpus = load_corpus()
     if corpus:
-        handle_batch(chk, corpus)
+        handle_batch(chk, [c for c in corpus if c["kind"] != "session"])
+        handle_sessions(chk, [c for c in corpus if c["kind"] == "session"])
     cases = [gen_case(chk, rng, max_m, max_depth, max_ops, nmax) for _ in range(n)]
     for i in range(0, len(cases), 200):
         handle_batch(chk, cases[i:i + 200])
+    ns = chk.pick(140, 1000)
+    sessions = [gen_session(chk, rng, max_m, max_depth, max_ops, nmax, chk.pick(4, 6)) for _ in range(ns)]
+    for i in range(0, len(sessions), 50):
+        handle_sessions(chk, sessions[i:i + 50])
 
 
 def replay(chk, data):
@@ -939,4 +1407,7 @@ def replay(chk, data):
         return
     case = rp["case"]
     case["corpus"] = "replay"
-    handle_batch(chk, [case])
+    if case["kind"] == "session":
+        handle_sessions(chk, [case])
+    else:
+        handle_batch(chk, [case])
